@@ -8,6 +8,7 @@ use crate::nat::{n, Nat};
 use crate::props::swapf::{c01_relations, kf_roundup};
 use crate::sys::*;
 use crate::world::*;
+use haloswap::asset::AssetInfo;
 
 #[derive(Debug, Clone)]
 pub struct SwapEv {
@@ -31,9 +32,42 @@ pub fn swap_events(w: &World, rec: &StepRecord, intent: &Intent, p: usize) -> Ve
     let (r0, r1, _) = pool_in(w, &rec.before, p);
     let mut r = [r0, r1];
     let mut out = vec![];
+    // The swap event names the offered asset by its display string. When the pair's two assets print
+    // identically (a native denom spelled like the cw20 token's address) the string does not identify the
+    // side; the sides are then the assignment that explains the movement of the pair's cw20 reserve
+    // (which only swaps can move inside this transaction besides the plain transfer of a hook's offer,
+    // already part of the swap). No unique assignment = no reconstruction (callers then judge by ledger).
+    let ambiguous: Option<Vec<usize>> = if pr.infos[0].to_string() == pr.infos[1].to_string() {
+        let tok = if matches!(pr.infos[0], AssetInfo::Token { .. }) { 0 } else { 1 };
+        let (a0, a1, _) = pool_in(w, &rec.after, p);
+        let actual = [a0, a1][tok] as i128 - [r0, r1][tok] as i128;
+        let n = evs.len().min(8);
+        let mut fits: Vec<Vec<usize>> = vec![];
+        for mask in 0..(1u32 << n) {
+            let sides: Vec<usize> = (0..n).map(|i| ((mask >> i) & 1) as usize).collect();
+            let mut d: i128 = 0;
+            for (i, ev) in evs.iter().take(n).enumerate() {
+                let a = attr_u128(ev, "offer_amount").unwrap_or(0) as i128;
+                let ret = attr_u128(ev, "return_amount").unwrap_or(0) as i128;
+                d += if sides[i] == tok { a } else { -ret };
+            }
+            if d == actual {
+                fits.push(sides);
+            }
+        }
+        if fits.len() != 1 || evs.len() > 8 {
+            return vec![];
+        }
+        Some(fits.remove(0))
+    } else {
+        None
+    };
     for (i, ev) in evs.iter().enumerate() {
         let offer_name = attr(ev, "offer_asset").unwrap_or("");
-        let side = if pr.infos[0].to_string() == offer_name { 0 } else { 1 };
+        let side = match &ambiguous {
+            Some(sides) => sides[i],
+            None => if pr.infos[0].to_string() == offer_name { 0 } else { 1 },
+        };
         let a = attr_u128(ev, "offer_amount").unwrap_or(0);
         let ret = attr_u128(ev, "return_amount").unwrap_or(0);
         let comm = attr_u128(ev, "commission_amount").unwrap_or(0);
